@@ -156,8 +156,8 @@ type Obs struct {
 	M      [][]int `json:"m"`
 	MinSim int     `json:"minsim"`
 	// weighted
-	W map[string]int `json:"w"`
-	Parts []int      `json:"parts"`
+	W     map[string]int `json:"w"`
+	Parts []int          `json:"parts"`
 }
 
 func empty() Obs {
@@ -264,6 +264,21 @@ func Record(w io.Writer, seed int64, n int) error {
 			o.Unit, o.Sym = unit(s12) && unit(s21), close12(s12, s21)
 			o.Ident = !(clean(a) == clean(b) && clean(a) != "") || s12 == 1
 			enc.Encode(o)
+			// the same words split between the operands at another place, right after (a,b): a result must not depend on
+			// what was compared before
+			if words := strings.Fields(a + " " + b); len(words) >= 3 && rng.Intn(3) == 0 {
+				k := 1 + rng.Intn(len(words)-1)
+				a2, b2 := strings.Join(words[:k], " "), strings.Join(words[k:], " ")
+				if a2 != a {
+					t12 := gedcom.StringSimilarity(a2, b2, 0, opts.JaroPrefixSize)
+					t21 := gedcom.StringSimilarity(b2, a2, 0, opts.JaroPrefixSize)
+					o2 := empty()
+					o2.Kind, o2.A, o2.B, o2.Prefix, o2.S = "name", proj.B(a2), proj.B(b2), opts.JaroPrefixSize, sc4(t12)
+					o2.Unit, o2.Sym = unit(t12) && unit(t21), close12(t12, t21)
+					o2.Ident = !(clean(a2) == clean(b2) && clean(a2) != "") || t12 == 1
+					enc.Encode(o2)
+				}
+			}
 		case 1: // dates
 			base := 1800 + rng.Intn(200)
 			a, b := gedcom.NewDateNode(randDate(rng, base)), gedcom.NewDateNode(randDate(rng, base+rng.Intn(8)))
